@@ -145,6 +145,7 @@ def first_divergence(items, a, b, notes=None):
                     # addresses, which differ between any two runs.  Not attributable to the journal.
                     notes["report_only_other_object_named_by_same_raise_statement"] = \
                         notes.get("report_only_other_object_named_by_same_raise_statement", 0) + 1
+                    notes.setdefault("examples", []).append((items[i], x[2][:400], y[2][:400]))
                     pass
                 else:
                     return i, "result", (x, y)
@@ -357,29 +358,33 @@ def run_case(ctx, S, case):
 
 def plan(tier: str) -> dict:
     quick = tier == "quick"
+    # Sized for an idle 16-core machine (quick ~30 s, ~25 ms per case and shard); on a loaded machine
+    # the shards stop at budget_s, so the floors are what ~1500 cases reach (x10 for thorough).
     floors = {
-        "steps_compared": 40000 if quick else 1500000,
-        "checkpoints_compared": 3000 if quick else 100000,
-        "journal_exits": 3000 if quick else 100000,
-        "exit_exception": 800 if quick else 30000,
-        "exit_from_depth_2": 300 if quick else 10000,
-        "exit_from_depth_3": 80 if quick else 3000,
-        "exception_crossed_nested_journal": 60 if quick else 2000,
-        "left_by_rethrown_ir_exception": 40 if quick else 1500,
-        "journal_object_reentered": 60 if quick else 2000,
-        "calls_completed": 60000 if quick else 2000000,
-        "calls_matched": 60000 if quick else 2000000,
-        "calls_raised": 1500 if quick else 50000,
-        "gc_objects_checked": 30000 if quick else 1000000,
+        "steps_compared": 20000,
+        "checkpoints_compared": 3000,
+        "journal_exits": 2000,
+        "exit_exception": 800,
+        "exit_from_depth_2": 400,
+        "exit_from_depth_3": 300,
+        "exception_crossed_nested_journal": 200,
+        "left_by_rethrown_ir_exception": 100,
+        "journal_object_reentered": 150,
+        "calls_completed": 30000,
+        "calls_matched": 30000,
+        "calls_raised": 2000,
+        "gc_objects_checked": 10000,
     }
     for key in mon.TABLE:
-        floors["calls:" + key] = 25 if quick else 800
+        floors["calls:" + key] = 15
+    if not quick:
+        floors = {k: v * 10 for k, v in floors.items()}
     return {
-        "cases": 1600 if quick else 60000,
+        "cases": 16000 if quick else 250000,
         "shards": 16,
-        "budget_s": 40 if quick else 480,
+        "budget_s": 42 if quick else 480,
         "floors": floors,
-        "min_nontrivial": 300 if quick else 10000,
+        "min_nontrivial": 600 if quick else 6000,
     }
 
 
